@@ -64,7 +64,30 @@ func famFiles() []family {
 	jsBase := func() api.BuildOptions {
 		return api.BuildOptions{Bundle: true, Outdir: "out", Format: api.FormatESModule, External: []string{"external-pkg", "external-pkg/*"}, Platform: api.PlatformNode}
 	}
+	// resolution that depends on more than the specifier: a package with "module" and "main" that is both imported and
+	// required (the import is redirected to "main" so that only one copy is bundled), a "browser" map that replaces a
+	// file and disables another, tsconfig "paths", and an alias
+	resolve := map[string]string{
+		"src/a.js":                          "import {v} from 'dual';\nimport './b.js';\nimport r from './replaced.js';\nimport off from './disabled.js';\nimport p from '@paths/x';\nimport al from 'aliased';\nconsole.log('MARK_a_1', v, r, off, p, al);\n",
+		"src/b.js":                          "const d = require('dual');\nconsole.log('MARK_b_1', d.v);\n",
+		"src/replaced.js":                   "export default 'MARK_replaced_1';\n",
+		"src/replacement.js":                "export default 'MARK_replacement_1';\n",
+		"src/disabled.js":                   "export default 'MARK_disabled_1';\n",
+		"src/mapped/x.js":                   "export default 'MARK_x_1';\n",
+		"src/alias-target.js":               "export default 'MARK_alias-target_1';\n",
+		"package.json":                      "{\"name\":\"root\",\"browser\":{\"./src/replaced.js\":\"./src/replacement.js\",\"./src/disabled.js\":false}}",
+		"tsconfig.json":                     "{\"compilerOptions\":{\"baseUrl\":\".\",\"paths\":{\"@paths/*\":[\"src/mapped/*\"]}}}",
+		"node_modules/dual/package.json":    "{\"name\":\"dual\",\"main\":\"./main.cjs.js\",\"module\":\"./module.esm.js\"}",
+		"node_modules/dual/main.cjs.js":     "exports.v = 'MARK_main.cjs_1';\n",
+		"node_modules/dual/module.esm.js":   "export const v = 'MARK_module.esm_1';\n",
+	}
 	return []family{
+		{name: "resolution-redirects", files: resolve, entries: []string{"src/a.js"}, unread: []string{"src/replaced.js", "node_modules/dual/module.esm.js", "src/disabled.js"},
+			base: func() api.BuildOptions {
+				return api.BuildOptions{Bundle: true, Outdir: "out", Format: api.FormatESModule, Platform: api.PlatformBrowser, Alias: map[string]string{"aliased": "./src/alias-target.js"}}
+			},
+			edges: []famEdge{{"src/a.js", "node_modules/dual/main.cjs.js", "import-statement", false}, {"src/a.js", "src/b.js", "import-statement", false}, {"src/b.js", "node_modules/dual/main.cjs.js", "require-call", false},
+				{"src/a.js", "src/replacement.js", "import-statement", false}, {"src/a.js", "(disabled):src/disabled.js", "import-statement", false}, {"src/a.js", "src/mapped/x.js", "import-statement", false}, {"src/a.js", "src/alias-target.js", "import-statement", false}}},
 		{name: "js-graph", files: js1, entries: []string{"src/a.js"}, unread: []string{"src/unread.js"}, base: jsBase,
 			edges: []famEdge{{"src/a.js", "src/b.js", "import-statement", false}, {"src/a.js", "src/side.js", "import-statement", false}, {"src/a.js", "src/data.json", "import-statement", false},
 				{"src/a.js", "external-pkg", "import-statement", true}, {"src/a.js", "external-pkg/sub", "import-statement", true}, {"src/a.js", "src/cjs.cjs", "require-call", false}, {"src/a.js", "src/lazy.js", "dynamic-import", false},
